@@ -80,6 +80,10 @@ class Spec:
         """-> (violations, counters, sets)   called once per distinct state"""
         return [], {}, {}
 
+    # True when on_state only issues read-only queries on G: the engine then requires the structural state of G to be
+    # the same before and after the oracle ran (a query that writes — setdefault, a cache primed wrongly — is a defect)
+    pure_queries = False
+
     def expand(self, conf, hist, G, M, outs):
         """whether successors of this state are explored"""
         return True
@@ -128,8 +132,15 @@ def _phase_b(chunk):
         try:
             G, M, outs = execute(conf, hist)
             try:
+                before = canon_impl(G) if spec.pure_queries else None
                 viols, cnt, sets = spec.on_state(conf, hist, G, M)
                 vj = [v.to_json() for v in viols]
+                if spec.pure_queries and canon_impl(G) != before:
+                    a, b = dict(before), dict(canon_impl(G))
+                    vj.append({'property': spec.prop, 'sub': 'purity', 'sig': {'kind': 'read-only-queries-changed-the-graph',
+                               'attributes': sorted(k for k in set(a) | set(b) if a.get(k) != b.get(k)), 'cls': conf['cls']},
+                               'case': {'conf': conf, 'history': [list(map(lambda x: list(x) if isinstance(x, tuple) else x, op)) for op in hist]},
+                               'detail': {'changed attributes': sorted(k for k in set(a) | set(b) if a.get(k) != b.get(k))}})
             except ExecTimeout:
                 raise
             except Exception as ex:
